@@ -844,7 +844,136 @@ theorem tie_withCors (s : Server) (m p : String) :
       "}"] ∧
     newCorsRouterStmts = ["return &corsRouter{ Router: router, middleware: cors.Middleware(headerFn, origins...), }"] ∧
     corsRouterServeStmts = ["c.middleware(c.Router.ServeHTTP)(w, r)"] ∧
-    s.serveHTTP m p = (if s.cors && condCorsPreflight m then .preflight else .router (s.router.serveHTTP m p)) ∧
-    condCorsNAOptions m = condCorsPreflight m := ⟨rfl, rfl, rfl, rfl, rfl⟩
+    (∀ ws, wrapServe s.router m p (.cors :: ws) = (if condCorsPreflight m then .preflight else wrapServe s.router m p ws)) ∧
+    condCorsNAOptions m = condCorsPreflight m := ⟨rfl, rfl, rfl, fun _ => rfl, rfl⟩
+
+/-! ### round 5c: every structure `ServeHTTP` reads and `Handle` writes (class of seeded change C09-9) -/
+
+abbrev Access := String × String × Nat × String
+
+def Access.isWrite (a : Access) : Bool := a.2.1 == "write" || a.2.1 == "write-index"
+
+/-- **`Handle` writes nothing before a validation or a failing `Add` can return, except a fresh EMPTY tree** (model
+`handleM`: the validations return the router untouched; `r1` stores `(method, newNode none)`; everything else is
+written by `tree.Add`, which detects a duplicate before writing: `addM_dup_unchanged`).  Its accesses to the router:
+one lookup `pr.trees[method]` after the two validation returns, one store `pr.trees[method] = tree` of the tree
+created by `search.NewTree()` on the line before — never the handler, no other field. -/
+theorem tie_access_handle :
+    handleAccess = [("trees", "read-index", 2, "pr.trees[method]"), ("trees", "write-index", 3, "tree")] ∧
+    (handleAccess.filter Access.isWrite).all (fun a => a.1 == "trees" && decide (a.2.2.1 ≥ 2) && a.2.2.2 == "tree") = true ∧
+    (handleStmts.zip (handleStmts.drop 1)).contains ("tree = search.NewTree()", "pr.trees[method] = tree") = true ∧
+    (∀ (r : Router) (m p : String) (item : Option H),
+      (!validMethod m || !rooted p) = true → (handleM r m p item).1 = r) := by
+  refine ⟨rfl, by decide, by decide, ?_⟩
+  intro r m p item h
+  unfold handleM
+  cases hv : validMethod m
+  · simp
+  · cases hr : rooted p
+    · simp
+    · simp [hv, hr] at h
+
+/-- **`ServeHTTP` consults only the trees** to pick the handler (everything before its first `return`), and the whole
+request path (`ServeHTTP`, `methodsAllowed`, `handleNotFound`) reads — never writes — exactly the three fields the
+struct has: `trees`, `notAllowed`, `notFound` (model `PatRouter`: `core`, `notAllowed`, `notFound`; `serve` reads only
+`r.trees`).  The setters write one field each; `Tree.Add` / `Tree.Search` touch only `t.root`. -/
+theorem tie_access_serve :
+    ((serveAccess.filter fun a => a.2.2.1 == 0).map (·.1)) = ["trees"] ∧
+    ((serveAccess ++ methodsAllowedAccess ++ handleNotFoundAccess).any Access.isWrite) = false ∧
+    ((serveAccess ++ methodsAllowedAccess ++ handleNotFoundAccess).filter (fun a => a.2.1 != "call")).all
+      (fun a => ["trees", "notAllowed", "notFound"].contains a.1) = true ∧
+    ((serveAccess.filter fun a => a.2.1 == "call").map (·.1)) = ["methodsAllowed", "handleNotFound"] ∧
+    patRouterFields = ["trees map[string]*search.Tree", "notFound http.Handler", "notAllowed http.Handler"] ∧
+    setNotFoundAccess = [("notFound", "write", 0, "handler")] ∧
+    setNotAllowedAccess = [("notAllowed", "write", 0, "handler")] ∧
+    treeAddAccess = [("root", "read", 2, "t.root")] ∧
+    treeSearchAccess = [("next", "call", 1, "t.next(t.root, route[1:], &result)"), ("root", "read", 1, "t.root")] := by
+  refine ⟨by decide, by decide, by decide, by decide, rfl, rfl, rfl, rfl, rfl⟩
+
+/-- **the other router wrappers** (model `RunOpt.corsHeaders` / `.customCors` / `.fileServer`, `Wrapper`, `wrapServe`,
+`canServe`): `WithCorsHeaders` and `WithCustomCors` are wired exactly like `WithCors` (not-allowed handler first, then
+the same `newCorsRouter`); `WithFileServer` wraps the router in a `fileServingRouter` whose middleware serves the file
+iff `createServeChecker` says so — `GET`, RAW path below `dir/`, the file exists — and otherwise calls `next`
+unchanged; `ensureTrailingSlash` appends the slash only when it is missing. -/
+theorem tie_wrappers (d : String) (ns : List String) (m p : String) (pr : PatRouter) (ws : List Wrapper) :
+    withCorsHeadersStmts.take 5 = [
+      "const allDomains = \"*\"",
+      "return func(server *Server){...}",
+      "func{",
+      "server.router.SetNotAllowedHandler(cors.NotAllowedHandler(nil, allDomains))",
+      "server.router = newCorsRouter(server.router, func(header http.Header){...}, allDomains)"] ∧
+    withCustomCorsStmts = [
+      "return func(server *Server){...}",
+      "func{",
+      "server.router.SetNotAllowedHandler(cors.NotAllowedHandler(notAllowedFn, origin...))",
+      "server.router = newCorsRouter(server.router, middlewareFn, origin...)",
+      "}"] ∧
+    withFileServerStmts = [
+      "return func(server *Server){...}",
+      "func{",
+      "server.router = newFileServingRouter(server.router, path, fs)",
+      "}"] ∧
+    newFileServingRouterStmts = ["return &fileServingRouter{ Router: router, middleware: fileserver.Middleware(path, fs), }"] ∧
+    fileServingRouterServeStmts = ["f.middleware(f.Router.ServeHTTP)(w, r)"] ∧
+    fileMiddlewareStmts.drop 7 = [
+      "if canServe(r) {",
+      "r.URL.Path = r.URL.Path[len(pathWithoutTrailSlash):]",
+      "fileServer.ServeHTTP(w, r)",
+      "}",
+      "else{",
+      "next(w, r)",
+      "}",
+      "}",
+      "}"] ∧
+    serveCheckerStmts.take 2 = ["pathWithTrailSlash := ensureTrailingSlash(path)", "fileChecker := createFileChecker(fs)"] ∧
+    canServe d ns m p =
+      (if condServeChecker m (hasPrefix p (ensureTrailingSlash d)) (ns.contains (fileName (fileRem d p)))
+       then some (fileName (fileRem d p)) else none) ∧
+    wrapServe pr m p (.files d ns :: ws) =
+      (match canServe d ns m p with | some f => .file f | none => wrapServe pr m p ws) ∧
+    ensureTrailingSlash d = (if ensureTrailingSlashBody (d.toList.getLast? == some '/') = 0 then d else d ++ "/") ∧
+    ensureTrailingSlashBodyReturns = ["path", "path + \"/\""] := by
+  refine ⟨rfl, rfl, rfl, rfl, rfl, rfl, rfl, rfl, rfl, ?_, rfl⟩
+  unfold ensureTrailingSlash ensureTrailingSlashBody
+  cases (d.toList.getLast? == some '/') <;> rfl
+
+/-- **`HeaderOnceResponseWriter.WriteHeader`** (model `headerOnceWrite`, `engineNotFoundStatus`): nothing is written once
+a status was written; otherwise the code goes to the underlying writer and the flag is set. -/
+theorem tie_headerOnce (wrote : Bool) (code : Nat) :
+    headerOnceWriteHeaderStmts = ["if w.wroteHeader {", "return", "}", "w.w.WriteHeader(code)", "w.wroteHeader = true"] ∧
+    headerOnceWrite wrote code = (if condHeaderOnceWrote wrote then (true, none) else (true, some code)) ∧
+    engineNotFoundStmts.drop (engineNotFoundStmts.length - 4) =
+      ["cw := response.NewHeaderOnceResponseWriter(w)", "h.ServeHTTP(cw, r)", "cw.WriteHeader(http.StatusNotFound)", "}"] :=
+  ⟨rfl, rfl, rfl⟩
+
+/-- the fields an assignment list writes (left sides that are selectors of the option's argument). -/
+def fieldsWritten (a : List (String × String)) : List String := (a.map (·.1)).filter fun l => l.toList.contains '.'
+
+/-- **what every option writes** — typed assignment lists against the model's `Settings.apply` / `Featured.apply` /
+`Server.apply`: each route option writes ONLY its own fields (never `r.routes`, except `WithPrefix`, which writes
+nothing else and stores a NEW slice); `WithJwt` leaves `prevSecret` alone; `WithSSE` also resets the timeout;
+`WithRouter` / `WithFileServer` / `WithCors` replace `server.router`, `WithChain` the engine's chain;
+`engine.addRoutes` appends the group, `engine.use` appends the middleware. -/
+theorem tie_assigns (st : Settings) (a b : String) (n : Nat) :
+    withJwtAssigns = [("r.jwt.enabled", "true"), ("r.jwt.secret", "secret")] ∧
+    (st.apply (.jwt a)).jwt = some (a, (st.jwt.map (·.2)).getD "") ∧
+    withJwtTransitionAssigns = [("r.jwt.enabled", "true"), ("r.jwt.secret", "secret"), ("r.jwt.prevSecret", "prevSecret")] ∧
+    (st.apply (.jwtTransition a b)).jwt = some (a, b) ∧
+    withTimeoutAssigns = [("r.timeout", "timeout")] ∧ (st.apply (.timeout n)) = { st with timeout := n } ∧
+    withMaxBytesAssigns = [("r.maxBytes", "maxBytes")] ∧ (st.apply (.maxBytes n)) = { st with maxBytes := n } ∧
+    withPriorityAssigns = [("r.priority", "true")] ∧ (st.apply .priority) = { st with priority := true } ∧
+    withSSEAssigns = [("r.sse", "true"), ("r.timeout", "0")] ∧ (st.apply .sse) = { st with sse := true, timeout := 0 } ∧
+    fieldsWritten withPrefixAssigns = ["r.routes"] ∧ (st.apply (.pfx a)) = st ∧
+    ((withJwtAssigns ++ withJwtTransitionAssigns ++ withTimeoutAssigns ++ withMaxBytesAssigns ++ withPriorityAssigns ++
+      withSSEAssigns).all fun x => x.1 != "r.routes") = true ∧
+    withRouterAssigns = [("server.router", "router")] ∧
+    withChainAssigns = [("svr.ngin.chain", "chn")] ∧
+    withFileServerAssigns = [("server.router", "newFileServingRouter(server.router, path, fs)")] ∧
+    withCorsAssigns = [("server.router", "newCorsRouter(server.router, nil, origin...)")] ∧
+    serverAddRoutesAssigns = [("r", "featuredRoutes{ routes: rs, }")] ∧
+    engineAddRoutesAssigns = [("r.routes", "buildSSERoutes(r.routes)"), ("ng.routes", "append(ng.routes, r)"),
+      ("ng.timeout", "r.timeout")] ∧
+    engineUseAssigns = [("ng.middlewares", "append(ng.middlewares, middleware)")] := by
+  refine ⟨rfl, rfl, rfl, rfl, rfl, rfl, rfl, rfl, rfl, rfl, rfl, rfl, by decide, rfl, by decide, rfl, rfl, rfl, rfl, rfl, rfl, rfl⟩
 
 end GoZero.C09.Tie
